@@ -64,7 +64,7 @@ func registerLiteralTypes(p *Prog) {
 	for _, fn := range p.Funcs {
 		EachInstrRaw(fn, func(i ssa.Instruction) {
 			if a, ok := i.(*ssa.Alloc); ok {
-				if n, ok := derefT(a.Type()).(*types.Named); ok && IsNewType(n) {
+				if n, ok := derefT1(a.Type()).(*types.Named); ok && IsNewType(n) {
 					if _, isStruct := n.Underlying().(*types.Struct); isStruct {
 						allocs[n] = append(allocs[n], a)
 					}
@@ -375,6 +375,7 @@ func helperResults(call *ssa.Call, idx int) []ssa.Value {
 	var out, all []ssa.Value
 	nres := h.Signature.Results().Len()
 	lastIsErr := nres >= 2 && h.Signature.Results().At(nres-1).Type().String() == "error"
+	lastIsBool := nres >= 2 && h.Signature.Results().At(nres-1).Type().String() == "bool"
 	for _, r := range Returns(h) {
 		if idx >= len(r.Results) {
 			continue
@@ -383,6 +384,10 @@ func helperResults(call *ssa.Call, idx int) []ssa.Value {
 		all = append(all, v)
 		// `return nil, err`: on the failure path the caller (which must test err) never uses this result
 		if lastIsErr && idx < nres-1 && isZeroConst(v) && !IsNilConst(ReturnValue(r, nres-1)) {
+			continue
+		}
+		// `return zero, false`: the comma-ok failure exit
+		if lastIsBool && idx < nres-1 && isZeroConst(v) && isZeroConst(ReturnValue(r, nres-1)) {
 			continue
 		}
 		out = append(out, v)
